@@ -553,7 +553,7 @@ class Context(MetadataContextMixin, object):
             else:
                 d["origin"] = self.parent_context.raw_query
         self.child_log.append(d)
-        self.child_log = self.child_log[:5]
+        self.child_log = self.child_log[-5:]
         self.store_metadata()
         if self.parent_context is not None:
             self.parent_context.log_child_dict(d)
